@@ -4,6 +4,10 @@ import json, os
 HERE = os.path.dirname(os.path.dirname(os.path.abspath(__file__)))
 
 CLAIMED = {
+ "C16": dict(level="exploration", ref="§4 C16",
+   technique="deterministic simulation: user and operator clients interleaved at call granularity on one FC layer, pointer-swap fault at arbitrary instants (incl. between Forward and BackPropagate), invalid-call faults; reference model of the slots and of which parameter objects were current at each forward",
+   text="Seeded histories in which an operator replaces W / B through the Weights() pointers at arbitrary instants while a user runs Forward and back-propagates weighted outputs. Every forward is compared with the affine formula at the model's current parameters (and a bitwise row-independence twin), Weights() must keep returning the same live addresses, and after every back-propagation the gradients must sit on the parameter objects that were current at forward time, with the parameters' shape and the formula's derivative; a dual-mode reference separates the known broadcast-mean finding. Sampling, not proof.",
+   note="Trusted: the closed-form model in props/c16.go. Spent parameter objects make later forwards 'dead' per C08; that rule is part of the model."),
  "C11": dict(level="fault_enumeration", ref="§4 C11",
    technique="deterministic simulation of training histories with protocol faults (step omission / duplication / reorder / invalid call) enumerated over every step; step-by-step comparison against an independent scalar reverse-mode reference evaluated at the implementation's current weights; bounded recovery (one step after the missing reset)",
    text="Seeded training histories FC -> activation -> loss assembled from the library's own parts. Every step's loss and weight update is compared with an independent reference (a scalar tape) at the current weights; for each history every protocol fault kind is injected at every step: after an omitted reset / back-propagation the next Update of every weight must fail and replace nothing, and the step after the reset is restored must match the reference again. A dual-mode reference separates the known broadcast-mean finding from any other deviation. Exhaustive over fault placement within a history, sampling over histories.",
